@@ -85,8 +85,10 @@ class World:
         self.sym_range = {}
         self.atoms = {}
         self.exp2_subst = {}     # canonical key of an exponent -> Term standing for 2**exponent (model substitution)
+        self.hazards = []        # decisions the interpreter took on the reals that IEEE arithmetic does not guarantee (see absint.compare)
 
     def reset(self):
+        del self.hazards[:]
         self.positive.clear()
         self.sym_range.clear()
         self.atoms.clear()
